@@ -42,6 +42,11 @@ def clamp(iv, t):
         return tr
     if iv[0] >= tr[0] and iv[1] <= tr[1]:
         return iv
+    if tr[0] == 0:
+        m = tr[1] + 1
+        if iv[0] // m == iv[1] // m:
+            # the whole interval wraps by the same multiple of 2^bits
+            return (iv[0] % m, iv[1] % m)
     return tr
 
 
@@ -95,6 +100,15 @@ class Intervals:
             if t2 in self.enum_ranges:
                 return self.enum_ranges[t2]
         return None
+
+    def _narrowed(self, name, x):
+        nl = getattr(self, 'narrow', None)
+        if nl and name in nl and nl[name] is not None:
+            if x is None:
+                return nl[name]
+            lo, hi = max(x[0], nl[name][0]), min(x[1], nl[name][1])
+            return (lo, hi) if lo <= hi else (lo, lo)
+        return x
 
     # ------------------------------------------------------------- reaching defs
     def _parents(self, func):
@@ -188,13 +202,14 @@ class Intervals:
         return None
 
     # ------------------------------------------------------------- local variables
-    def local_env(self, func):
+    def local_env(self, func, penv=None):
         """flow-insensitive intervals of the locals of `func` (join over all assignments)"""
         fid = func['id']
-        if fid in self._local_cache:
+        if penv is None and fid in self._local_cache:
             return self._local_cache[fid]
         env = {}
-        self._local_cache[fid] = env
+        if penv is None:
+            self._local_cache[fid] = env
         decls = {}
         assigns = {}
         loopvars = {}
@@ -228,8 +243,8 @@ class Intervals:
                 unknown = False
                 if name in loopvars and not [a for a in assigns.get(name, []) if a.get('k') == 'assign']:
                     v, cond, loop = loopvars[name]
-                    lo = self.iv(v.get('init'), func, env) if 'init' in v else None
-                    hi = self.iv(cond.get('rhs'), func, env)
+                    lo = self.iv(v.get('init'), func, env, penv) if 'init' in v else None
+                    hi = self.iv(cond.get('rhs'), func, env, penv)
                     incs = assigns.get(name, [])
                     only_inc = all(a.get('k') == 'un' and a.get('op') in ('++', 'post++') for a in incs)
                     # the loop variable must not be modified inside the body other than by the increment
@@ -240,7 +255,7 @@ class Intervals:
                         unknown = True
                 else:
                     if 'init' in d:
-                        cur = self.iv(d['init'], func, env)
+                        cur = self.iv(d['init'], func, env, penv)
                         if cur is None:
                             unknown = True
                     elif name in assigns:
@@ -250,7 +265,7 @@ class Intervals:
                     first = 'init' not in d
                     for a in assigns.get(name, []):
                         if a.get('k') == 'assign' and a.get('op') == '=':
-                            x = self.iv(a.get('rhs'), func, env)
+                            x = self.iv(a.get('rhs'), func, env, penv)
                         else:
                             x = None  # compound assignment / ++ : give up -> type range
                         if x is None:
@@ -267,8 +282,96 @@ class Intervals:
                     changed = True
             if not changed:
                 break
-        # parameters that are reassigned lose any caller-provided bound: handled by callers
+        # structured bindings initialised from a repo function returning std::make_tuple(a, b, ...)
+        for n in walk(func.get('body')):
+            if n.get('k') == 'var' and n.get('bindings') and isinstance(n.get('init'), dict):
+                ivs = self.tuple_intervals(n['init'], func, env)
+                for i, b in enumerate(n['bindings']):
+                    env[b] = ivs[i] if ivs and i < len(ivs) else None
+        # std::tie(a, b) = f(...)
+        for n in walk(func.get('body')):
+            if n.get('k') == 'opcall' and n.get('op') == '=' and len(n.get('args', [])) == 2:
+                lhs = unwrap_casts(n['args'][0])
+                while isinstance(lhs, dict) and lhs.get('k') == 'construct' and lhs.get('args'):
+                    lhs = unwrap_casts(lhs['args'][0])
+                if isinstance(lhs, dict) and lhs.get('k') == 'call' and str(lhs.get('fn', '')).startswith('std::tie'):
+                    ivs = self.tuple_intervals(n['args'][1], func, env)
+                    for i, a in enumerate(lhs.get('args', [])):
+                        a = unwrap_casts(a)
+                        if isinstance(a, dict) and a.get('k') == 'ref' and a.get('dk') == 'local':
+                            x = ivs[i] if ivs and i < len(ivs) else None
+                            if x is not None and a['name'] in decls and trange(decls[a['name']].get('t')):
+                                x = clamp(x, decls[a['name']].get('t'))
+                            # only when this is the sole definition of the variable
+                            others = [w for w in assigns.get(a['name'], [])]
+                            if 'init' not in decls.get(a['name'], {'init': 1}) and not others:
+                                env[a['name']] = x if x is not None else self.type_interval(decls[a['name']].get('t'))
+        # counters that only ever decrement behind an `if (x == 0) break/return;` stay inside [0, init]
+        for name, d in decls.items():
+            ws = assigns.get(name, [])
+            if ws and 'init' in d and all(a.get('k') == 'un' and a.get('op') in ('--', 'post--') for a in ws):
+                c0 = const_value(d['init'])
+                if c0 is not None and c0 >= 0 and all(self._dec_guarded(func, a, name) for a in ws):
+                    env[name] = (0, c0)
+        # lambdas: variables captured from the enclosing function
+        if '::<lambda@' in fid:
+            parent = self.funcs.get(fid.rsplit('::<lambda@', 1)[0])
+            if parent is not None and parent is not func:
+                penv_ = self.local_env(parent)
+                for k2, v2 in penv_.items():
+                    env.setdefault(k2, v2)
         return env
+
+    def _dec_guarded(self, func, dec, name):
+        pm = self._parents(func)
+        node = pm.get(id(dec))
+        child = dec
+        while node is not None and node.get('k') != 'block':
+            child = node
+            node = pm.get(id(node))
+        if node is None:
+            return False
+        body = node.get('body', [])
+        for i, st in enumerate(body):
+            if st is child and i > 0:
+                prev = body[i - 1]
+                if prev.get('k') == 'if' and prev.get('else') is None:
+                    c = unwrap_casts(prev.get('cond'))
+                    th = prev.get('then') or {}
+                    ex = th.get('k') in ('break', 'return') or (th.get('k') == 'block' and th.get('body') and th['body'][-1].get('k') in ('break', 'return'))
+                    if ex and isinstance(c, dict) and c.get('k') == 'bin' and c.get('op') == '==' and const_value(c.get('rhs')) == 0:
+                        l = unwrap_casts(c.get('lhs'))
+                        if isinstance(l, dict) and l.get('k') == 'ref' and l.get('name') == name:
+                            return True
+        return False
+
+    def tuple_intervals(self, init, func, env):
+        """element intervals of a tuple-valued initialiser: a call of a repo function whose single return is
+           std::make_tuple(e0, e1, ...)"""
+        e = unwrap_casts(init)
+        while isinstance(e, dict) and e.get('k') == 'construct' and e.get('copymove') and e.get('args'):
+            e = unwrap_casts(e['args'][0])
+        if not (isinstance(e, dict) and e.get('k') == 'call'):
+            return None
+        callee = self.funcs.get(e.get('fn'))
+        if callee is None:
+            return None
+        rets = [n for n in walk(callee['body']) if n.get('k') == 'return' and n.get('e') is not None]
+        if len(rets) != 1:
+            return None
+        mt = None
+        for n in walk(rets[0]['e']):
+            if n.get('k') == 'call' and str(n.get('fn', '')).startswith('std::make_tuple'):
+                mt = n
+                break
+        if mt is None:
+            return None
+        pen = {}
+        for i, p in enumerate(callee.get('params', [])):
+            if i < len(e.get('args', [])):
+                pen[p['name']] = self.iv(e['args'][i], func, env, {})
+        cenv = self.local_env_with(callee, pen, 1)
+        return [self.iv(a, callee, cenv, pen, 1) for a in mt.get('args', [])]
 
     # ---------------------------------------------------------------- expressions
     def iv(self, e, func=None, env=None, penv=None, depth=0):
@@ -313,11 +416,11 @@ class Intervals:
                             a = self.iv(mask, func, env, penv, depth + 1)
                             x = (0, a[1]) if a is not None and a[0] >= 0 else None
                         if x is not None:
-                            return x
+                            return self._narrowed(e['name'], x)
                 v = env.get(e['name'])
                 if v is not None:
-                    return v
-                return tr
+                    return self._narrowed(e['name'], v)
+                return self._narrowed(e['name'], tr)
             return tr
         if k in ('mem', 'index') or (k == 'opcall' and e.get('op') == '[]') or (k == 'bin' and e.get('op') in ('->*', '.*')):
             p = field_path(e)
@@ -351,6 +454,10 @@ class Intervals:
                     return clamp((-v[1], -v[0]), t)
                 return tr
             if op == '~':
+                if v is not None and tr is not None and tr[0] < 0:
+                    return clamp((-v[1] - 1, -v[0] - 1), t)
+                if v is not None and tr is not None and tr[0] == 0 and v[0] >= 0:
+                    return (tr[1] - v[1], tr[1] - v[0])
                 return tr
             if op == '+':
                 return v if v is not None else tr
@@ -463,7 +570,18 @@ class Intervals:
                 return (max(a[0][0], a[1][0]), max(a[0][1], a[1][1]))
             return tr
         if name == 'size' and str(e.get('cls', '')).startswith('std::array<'):
-            return None
+            import re as _re
+            m = _re.match(r'std::array<.*, (\d+)>$', str(e.get('cls')))
+            if m:
+                return (int(m.group(1)), int(m.group(1)))
+            return tr
+        if fn.startswith('__builtin_clzll') or name == '__builtin_clzll':
+            a = self.iv(args[0], func, env, penv, depth) if args else None
+            if a is not None and a[0] >= 1:
+                return (64 - a[1].bit_length(), 64 - a[0].bit_length())
+            if a is not None and a[0] >= 0:
+                return (64 - max(1, a[1].bit_length()), 63)
+            return (0, 63)
         # operand accessors: bounded by the storage width of the operand
         cls = e.get('cls')
         callee = self.funcs.get(fn)
@@ -528,41 +646,4 @@ class Intervals:
 
     def local_env_with(self, func, penv, depth):
         """local intervals of func given parameter intervals (not cached)"""
-        saved = self._local_cache.pop(func['id'], None)
-        # temporarily evaluate locals with penv visible
-        env = {}
-        decls = [n for n in walk(func.get('body')) if n.get('k') == 'var']
-        assigns = {}
-        for n in walk(func.get('body')):
-            if n.get('k') == 'assign':
-                t = unwrap_casts(n.get('lhs'))
-                if isinstance(t, dict) and t.get('k') == 'ref' and t.get('dk') == 'local':
-                    assigns.setdefault(t['name'], []).append(n)
-            elif n.get('k') == 'un' and n.get('op') in ('++', '--', 'post++', 'post--'):
-                t = unwrap_casts(n.get('e'))
-                if isinstance(t, dict) and t.get('k') == 'ref' and t.get('dk') == 'local':
-                    assigns.setdefault(t['name'], []).append(n)
-        for rnd in range(2):
-            for d in decls:
-                name = d['name']
-                cur = self.iv(d['init'], func, env, penv, depth) if 'init' in d else None
-                bad = 'init' not in d and name not in assigns
-                first = 'init' not in d
-                for a in assigns.get(name, []):
-                    if a.get('k') == 'assign' and a.get('op') == '=':
-                        x = self.iv(a.get('rhs'), func, env, penv, depth)
-                    else:
-                        x = None
-                    if x is None:
-                        bad = True
-                        break
-                    cur = x if first else join(cur, x)
-                    first = False
-                if bad or cur is None:
-                    cur = self.type_interval(d.get('t'))
-                elif trange(d.get('t')):
-                    cur = clamp(cur, d.get('t'))
-                env[name] = cur
-        if saved is not None:
-            self._local_cache[func['id']] = saved
-        return env
+        return self.local_env(func, dict(penv or {}))
